@@ -437,6 +437,9 @@ fn folds<T: Tier>(rep: &mut Report) {
                     let fold = items.iter().fold(<$Ty>::zero(), |a, b| a + *b);
                     same(ctx, &format!("{}/sum", $name), "values", &items.iter().copied().sum::<$Ty>(), &fold);
                     same(ctx, &format!("{}/sum", $name), "references", &items.iter().sum::<$Ty>(), &fold);
+                    same(ctx, &format!("{}/sum", $name), "values (filtered iterator)", &items.iter().copied().filter(|_| true).sum::<$Ty>(), &fold);
+                    same(ctx, &format!("{}/sum", $name), "references (filtered iterator)", &items.iter().filter(|_| true).sum::<$Ty>(), &fold);
+                    same(ctx, &format!("{}/sum", $name), "values (once + filtered)", &items.iter().copied().take(1).chain(items.iter().copied().skip(1).filter(|_| true)).sum::<$Ty>(), &fold);
                 }};
             }
             macro_rules! product {
@@ -445,6 +448,11 @@ fn folds<T: Tier>(rep: &mut Report) {
                     let fold = items.iter().fold(<$Ty>::one(), |a, b| a * *b);
                     same(ctx, &format!("{}/product", $name), "values", &items.iter().copied().product::<$Ty>(), &fold);
                     same(ctx, &format!("{}/product", $name), "references", &items.iter().product::<$Ty>(), &fold);
+                    // iterators that do not know their length (a lower size hint of 0), and an owning one
+                    same(ctx, &format!("{}/product", $name), "values (filtered iterator)", &items.iter().copied().filter(|_| true).product::<$Ty>(), &fold);
+                    same(ctx, &format!("{}/product", $name), "references (filtered iterator)", &items.iter().filter(|_| true).product::<$Ty>(), &fold);
+                    same(ctx, &format!("{}/product", $name), "values (once + filtered)", &items.iter().copied().take(1).chain(items.iter().copied().skip(1).filter(|_| true)).product::<$Ty>(), &fold);
+                    same(ctx, &format!("{}/product", $name), "values (into_iter)", &items.clone().into_iter().product::<$Ty>(), &fold);
                 }};
             }
             sum!("Vector1", Vector1<T>, |k| mk_v1(vec_from_r::<T, 1>(&g(1, k))));
@@ -521,6 +529,11 @@ fn folds_special<T: Tier + num_traits::Float>(rep: &mut Report, mode: usize) {
                     let fold = items.iter().fold(<$Ty>::one(), |a, b| a * *b);
                     same(ctx, &format!("{}/product", $name), "values", &items.iter().copied().product::<$Ty>(), &fold);
                     same(ctx, &format!("{}/product", $name), "references", &items.iter().product::<$Ty>(), &fold);
+                    // iterators that do not know their length (a lower size hint of 0), and an owning one
+                    same(ctx, &format!("{}/product", $name), "values (filtered iterator)", &items.iter().copied().filter(|_| true).product::<$Ty>(), &fold);
+                    same(ctx, &format!("{}/product", $name), "references (filtered iterator)", &items.iter().filter(|_| true).product::<$Ty>(), &fold);
+                    same(ctx, &format!("{}/product", $name), "values (once + filtered)", &items.iter().copied().take(1).chain(items.iter().copied().skip(1).filter(|_| true)).product::<$Ty>(), &fold);
+                    same(ctx, &format!("{}/product", $name), "values (into_iter)", &items.clone().into_iter().product::<$Ty>(), &fold);
                 }};
             }
             sum!("Vector1", Vector1<T>, |k| mk_v1::<T>(std::array::from_fn(|j| z(k, j))));
@@ -584,6 +597,8 @@ fn folds_long<T: Tier + num_traits::Float>(rep: &mut Report) {
                     let fold = items.iter().fold(<$Ty>::one(), |a, b| a * *b);
                     same(ctx, &format!("{}/product/long", $name), "values", &items.iter().copied().product::<$Ty>(), &fold);
                     same(ctx, &format!("{}/product/long", $name), "references", &items.iter().product::<$Ty>(), &fold);
+                    same(ctx, &format!("{}/product/long", $name), "values (filtered iterator)", &items.iter().copied().filter(|_| true).product::<$Ty>(), &fold);
+                    same(ctx, &format!("{}/product/long", $name), "references (filtered iterator)", &items.iter().filter(|_| true).product::<$Ty>(), &fold);
                 }};
             }
             sum!("Vector1", Vector1<T>, |k| mk_v1(vec_from_r::<T, 1>(&g(1, k))));
